@@ -228,7 +228,16 @@ def run_pipeline(cx: Ctx, proto, vals, parts, pipeline: str, rng=None, cpp_batch
             fin = {"b": "binary", "j": "ndjson"}[hop[3]]
             fout = {"b": "binary", "j": "ndjson"}[hop[5]]
             assert fmt == fin, (pipeline, fmt, fin)
-            stream = (P.binary_input(data, rng, chunk_mode) if fin == "binary" else io.StringIO(data if isinstance(data, str) else data.decode("utf-8")))
+            if fin == "binary":
+                stream = P.binary_input(data, rng, chunk_mode)
+            else:
+                text_ = data if isinstance(data, str) else data.decode("utf-8")
+                # (the NDJSON reader takes text streams and - its signature says - buffered binary ones)
+                if rng is not None and rng.fork("ndjson_stream_kind", hop).chance(0.3):
+                    stream = io.BufferedReader(io.BytesIO(text_.encode("utf-8")))
+                    cx.bump("py_ndjson_read_from_a_binary_stream")
+                else:
+                    stream = io.StringIO(text_)
             with runner.time_limit(60):
                 out, err = P.relay(model, proto, fin, stream, fout)
             if err is not None:
